@@ -13,6 +13,9 @@ L0_TERMS = [("a", "str", "a"), ("b", "str", "b"), ("c", "str", "c"),
 L1_TERMS = [("a", "str", "a"), ("b", "str", "b"), ("aa", "str", "aa"),
             ("ab", "str", "ab"), ("ap", "re", "a+"), ("x", "re", "[ab]"),
             ("abo", "re", "ab?")]
+# crossing overlap (tokens of different length whose boundaries interleave: a|ab|bc|c on "abc")
+L1X_TERMS = [("a", "str", "a"), ("ab", "str", "ab"), ("bc", "str", "bc"), ("c", "str", "c"), ("b", "str", "b"),
+             ("abc", "str", "abc"), ("ba", "str", "ba"), ("cb", "re", "c?b")]
 # delimiter separated multi character terminals
 L2_TERMS = [("num", "re", r"\d+"), ("id", "re", r"[a-z]+"), ("p", "str", "+"),
             ("q", "str", ";"), ("kw", "str", "=>")]
@@ -150,9 +153,19 @@ def nullable_chain_cfgs(draw):
     prods.append(("B", ("C",)))
     if draw(st.booleans()):
         prods.append(("B", (draw(tok),)))
-    prods.append(("C", ()))
-    if draw(st.booleans()):
-        prods.append(("C", (draw(tok),)))
+    if draw(st.integers(0, 2)) == 0:
+        # one more unit level: C: D; D: EMPTY | t
+        nts = nts + ["D"]
+        prods.append(("C", ("D",)))
+        if draw(st.booleans()):
+            prods.append(("C", (draw(tok), "D")))
+        prods.append(("D", ()))
+        if draw(st.booleans()):
+            prods.append(("D", (draw(tok),)))
+    else:
+        prods.append(("C", ()))
+        if draw(st.booleans()):
+            prods.append(("C", (draw(tok),)))
     g = normalise(nts, L0_TERMS[:4], prods)
     return g.to_json()
 
